@@ -19,7 +19,10 @@ fn letter(rng: &mut Rng, l: u64) -> V {
         0 => param(-7, "public-key"),
         1 => param(-8, "public-key"),
         2 => param(*rng.pick(&[-257i128, -35, -9, -6, 0, 1, -2147483648, 2147483647, -65536]), "public-key"),
-        _ => param(*rng.pick(&[-7i128, -8]), *rng.pick(&["public-keys", "", "Public-Key", "x", "public-ke"])),
+        _ => param(
+            *rng.pick(&[-7i128, -8]),
+            *rng.pick(&["public-keys", "", "Public-Key", "x", "public-ke", "public-key\u{0}", "public-key\u{0}\u{0}", "public-key ", " public-key", "public-key\n", "PUBLIC-KEY"]),
+        ),
     }
 }
 
@@ -27,7 +30,10 @@ fn fletter(rng: &mut Rng, l: u64) -> V {
     match l {
         0 => V::text("packed"),
         1 => V::text("none"),
-        2 => V::text(*rng.pick(&["tpm", "Packed", "PACKED", "None", "NONE", "packeD", "nonE", "android-key", "fido-u2f", "apple", " packed", "none "])),
+        2 => V::text(*rng.pick(&[
+            "tpm", "Packed", "PACKED", "None", "NONE", "packeD", "nonE", "android-key", "fido-u2f", "apple", " packed", "none ", "packed\u{0}", "none\u{0}",
+            "\u{0}none", "packed\n", "none\u{feff}",
+        ])),
         _ => {
             // arbitrary identifiers of any length (WebAuthn does not bound them on the wire)
             let n = match rng.below(6) {
